@@ -381,6 +381,57 @@ macro_rules! set_mod {
                         }
                         Err(_) => "key err".to_string(),
                     },
+                    // exhaustive cross-interpretation test over a tiny alphabet: sign every (ctx, M, mode) with ctx, M short strings
+                    // over the given alphabet, then verify every signature under every OTHER (ctx', M', mode'); any acceptance is a
+                    // binding failure.  xbind <set> <xi> <alphabet-hex> <max_ctx_len> <max_msg_len>
+                    "xbind" => {
+                        let (_pk, sk) = gen(a[2]);
+                        let pk = sk.get_public_key();
+                        let alpha = hex(a[3]);
+                        let (mc, mm) = (a[4].parse::<usize>().unwrap(), a[5].parse::<usize>().unwrap());
+                        fn strings(alpha: &[u8], maxlen: usize) -> Vec<Vec<u8>> {
+                            let mut out: Vec<Vec<u8>> = vec![vec![]];
+                            let mut cur: Vec<Vec<u8>> = vec![vec![]];
+                            for _ in 0..maxlen {
+                                let mut nxt = vec![];
+                                for s in &cur { for &b in alpha { let mut t = s.clone(); t.push(b); nxt.push(t); } }
+                                out.extend(nxt.iter().cloned());
+                                cur = nxt;
+                            }
+                            out
+                        }
+                        let ctxs = strings(&alpha, mc);
+                        let msgs = strings(&alpha, mm);
+                        let modes = ["pure", "sha256", "sha512", "shake128"];
+                        let mut items: Vec<(usize, usize, usize, [u8; SIG_LEN])> = vec![];
+                        for (ci, c) in ctxs.iter().enumerate() {
+                            for (mi, m) in msgs.iter().enumerate() {
+                                for (di, d) in modes.iter().enumerate() {
+                                    if di > 1 && (ci + mi) % 3 != 0 { continue; }   // thin out two of the hash modes
+                                    let mut rng = ScriptRng::new(&format!("f{}", tohex(&[(ci * 7 + mi) as u8; 32])));
+                                    let r = if *d == "pure" { sk.try_sign_with_rng(&mut rng, m, c) } else { sk.try_hash_sign_with_rng(&mut rng, m, c, &ph(d)) };
+                                    match r { Ok(sg) => items.push((ci, mi, di, sg)), Err(_) => return "ok sign-err".to_string() }
+                                }
+                            }
+                        }
+                        let mut checked = 0usize;
+                        for (ci, mi, di, sg) in &items {
+                            for (cj, c2) in ctxs.iter().enumerate() {
+                                for (mj, m2) in msgs.iter().enumerate() {
+                                    for (dj, d2) in modes.iter().enumerate() {
+                                        let same = cj == *ci && mj == *mi && dj == *di;
+                                        let v = if *d2 == "pure" { pk.verify(m2, sg, c2) } else { pk.hash_verify(m2, sg, c2, &ph(d2)) };
+                                        checked += 1;
+                                        if v != same {
+                                            return format!("ok collision signed=({},{},{}) verified=({},{},{}) accept={}",
+                                                tohex(&ctxs[*ci]), tohex(&msgs[*mi]), modes[*di], tohex(c2), tohex(m2), d2, s01(v));
+                                        }
+                                    }
+                                }
+                            }
+                        }
+                        format!("ok none {} {}", items.len(), checked)
+                    }
                     // bulk self-consistency over many seeds (no oracle needed): generated vs derived vs round-tripped keys,
                     // byte equality and sign->verify under every provenance; reports the first seed that breaks something.
                     // keyscan <set> <salt-hex-24-bytes> <start> <count> <do_sign 0|1>
